@@ -87,12 +87,14 @@ def batch_exits(chk, n_tasks, jobs):
 
 
 def unrelated_child(chk, helper_rc, task_rc):
-    """(b) the cond process owns a child it did not start; it exits just before the task does"""
+    """(b) the cond process owns a child it did not start; it exits just before the task does: its status must not be
+    attributed to the task (a dependent of the task runs iff the TASK exited 0), and it must not be waited for"""
     root = implrun.make_project({"COND": ""})
     f1, f2 = os.path.join(root, "f1"), os.path.join(root, "f2")
     open(os.path.join(root, "COND"), "w").write(
-        'run_command(name="t", run="echo $$ > $COND_OUT/pid; while [ ! -e %s ]; do sleep 0.02; done; exit %d")\n' % (f2, task_rc))
-    wrapper = "( while [ ! -e %s ]; do sleep 0.02; done; exit %d ) & exec %s -m conductor run //:t" % (f1, helper_rc, PY)
+        'run_command(name="t", run="echo $$ > $COND_OUT/pid; while [ ! -e %s ]; do sleep 0.02; done; exit %d")\n' % (f2, task_rc)
+        + 'run_command(name="after", run="touch $COND_OUT/ran", deps=[":t"])\n')
+    wrapper = "( while [ ! -e %s ]; do sleep 0.02; done; exit %d ) & exec %s -m conductor run //:after" % (f1, helper_rc, PY)
     p = subprocess.Popen(["bash", "-c", wrapper], cwd=root, env=dict(os.environ, PYTHONPATH=SRC), stdout=subprocess.PIPE, stderr=subprocess.PIPE, start_new_session=True)
     if not _wait_for(lambda: _pids(root, ["t"]) is not None):
         rc, text, _ = _finish(p, 1)
@@ -104,9 +106,10 @@ def unrelated_child(chk, helper_rc, task_rc):
     if hung:
         return "cond run did not terminate with an unrelated child around: %r" % text[-300:]
     want = 0 if task_rc == 0 else 1
-    ok_text = ("completed successfully" in text) if task_rc == 0 else ("failed" in text and "(%d)" % task_rc in text)
-    if rc != want or not ok_text:
-        return "an unrelated child exited with %d before task //:t exited with %d: cond exited %s and reported %r" % (helper_rc, task_rc, rc, text[-300:])
+    ran = os.path.exists(os.path.join(root, "cond-out", "after.task", "ran"))
+    if rc != want or ran != (task_rc == 0):
+        return ("an unrelated child exited with %d before task //:t exited with %d: cond exited %s, the dependent of //:t %s: %r"
+                % (helper_rc, task_rc, rc, "was executed" if ran else "was not executed", text[-300:]))
     return None
 
 
